@@ -10,8 +10,13 @@
         clock runs backwards) and kills the particle when the candidate leaves (lo, hi);
       - the IBM ages the particle and kills it at age >= lifetime (lifetime < 0: never).
 
+    The releaser works in either mode of release.py: DISCRETE ([s_cont] = None: the rows of the table at their
+    times) or CONTINUOUS ([s_cont] = Some frequency: discretize() — the row set of the latest file time at
+    every tick of the frequency grid anchored at the first file time before the stop).
+
     [m_run] is "what the code does" for the set-up; [sp_run] is the SPECIFICATION run: particles enter at
-    the steps of their release times (C04's [released_at]), feel the linear interpolation of the frames
+    the steps of their release times (C04's [released_at]; continuous mode: at every tick inside the window,
+    C04's [cont_released_at]), feel the linear interpolation of the frames
     (C03's [lerp_spec]) and the latest scalar frame (C03's [latest_spec]).  Proofs/SetupProofs.v proves that
     the two agree record for record for every well-formed set-up, and derives the closed time-shift (C14)
     and time-mirror (C10) theorems about file layouts, release tables and clocks. *)
@@ -26,6 +31,7 @@ Record setup := {
   s_tk : tk;                         (* start, stop, dt, reference, direction *)
   s_files : list (list record);      (* forcing files in glob order: records (time, u, scalar) *)
   s_tab : list row;                  (* release table in file order; rvals = [tag; 1024*x; class] *)
+  s_cont : option Z;                 (* continuous release: Some frequency in seconds; None = discrete release *)
   s_period : Z;                      (* output period in steps *)
   s_dtdx : Q;                        (* dt / dx *)
   s_lo : Q; s_hi : Q;                (* open interval of valid positions *)
@@ -64,7 +70,7 @@ Definition m_u (s : setup) (n : Z) : Q :=
 Definition m_temp (s : setup) (n : Z) : Q :=
   match m_fstate s n with Some st => scal st | None => 0 end.
 Definition m_rows (s : setup) (n : Z) : list row :=
-  match rel_init (s_tk s) None false (s_tab s) with
+  match rel_init (s_tk s) (s_cont s) false (s_tab s) with
   | RelOk _ groups steps =>
       match run_upto groups steps (S (Z.to_nat n)) with
       | Some (_, outs) => last outs []
@@ -86,21 +92,32 @@ Definition sp_u (s : setup) (n : Z) : Q :=
   end.
 Definition sp_temp (s : setup) (n : Z) : Q :=
   match latest_spec (spts (s_raw s) (s_disk s)) n with Some v => v | None => 0 end.
-Definition sp_release (s : setup) (n : Z) : list (Z * pv) :=
-  map row_part (released_at (s_tk s) (s_tab s) n).
+Definition sp_rows (s : setup) (n : Z) : list row :=
+  match s_cont s with
+  | None => released_at (s_tk s) (s_tab s) n
+  | Some f => cont_released_at (s_tk s) f false (s_tab s) n
+  end.
+Definition sp_release (s : setup) (n : Z) : list (Z * pv) := map row_part (sp_rows s n).
 Definition sp_force (s : setup) (n : Z) (v : pv) : pv := with_temp v (sp_temp s n).
 Definition sp_track (s : setup) (n : Z) (v : pv) (c : Z) : pv * bool := move s (sp_u s n) v c.
 Definition sp_run (s : setup) : sim pv Z :=
   cold_run pv Z (sp_release s) (sp_force s) s_cache (sp_track s) (ibm s) (s_due s) (s_nsteps s).
 
-(** * well-formed set-ups (decidable): positive time step; the in-window part of the release table in
-    simulation order on the time grid and not empty (the run is not refused); forcing frames on the time
-    grid at pairwise different times, one at or before the start and one after the last step *)
+(** * well-formed set-ups (decidable): positive time step; DISCRETE release: the in-window part of the
+    release table in simulation order on the time grid; CONTINUOUS release: C04's [cont_ok] (positive
+    frequency, a multiple of dt; the part of the table before the stop time in simulation order, its first
+    time on the model time grid, all its times on the frequency grid anchored at the first); the releaser
+    does not refuse the run; forcing frames on the time grid at pairwise different times, one at or before
+    the start and one after the last step *)
 Definition started (s : setup) : bool :=
-  match rel_init (s_tk s) None false (s_tab s) with RelOk _ _ _ => true | RelExit => false end.
+  match rel_init (s_tk s) (s_cont s) false (s_tab s) with RelOk _ _ _ => true | RelExit => false end.
+Definition tab_ok (s : setup) : bool :=
+  match s_cont s with
+  | None => table_ok (s_tk s) (filter_time (in_window (s_tk s)) (s_tab s))
+  | Some f => cont_ok (s_tk s) f (s_tab s)
+  end.
 Definition setup_ok (s : setup) : bool :=
-  (0 <? dt (s_tk s)) &&
-  table_ok (s_tk s) (filter_time (in_window (s_tk s)) (s_tab s)) && started s &&
+  (0 <? dt (s_tk s)) && tab_ok s && started s &&
   ForcingTime.on_grid (s_tk s) (s_files s) && nodupb (layout_times (s_files s)) &&
   covers (s_raw s) (s_nsteps s - 1).
 
@@ -115,7 +132,7 @@ Definition shift_tk' (t : tk) (d : Z) : tk :=
   {| start := start t + d; stop := stop t + d; dt := dt t; ref := ref t + d; rev := rev t |}.
 Definition shift_setup (s : setup) (d : Z) : setup :=
   {| s_tk := shift_tk' (s_tk s) d; s_files := map (map (shift_rec d)) (s_files s);
-     s_tab := map (shift_row d) (s_tab s); s_period := s_period s; s_dtdx := s_dtdx s;
+     s_tab := map (shift_row d) (s_tab s); s_cont := s_cont s; s_period := s_period s; s_dtdx := s_dtdx s;
      s_lo := s_lo s; s_hi := s_hi s; s_life := s_life s; s_cfac := s_cfac s |}.
 
 (** the mirror image of a reversed set-up: a forward clock over the axis x |-> 2*start - x, every forcing
@@ -127,7 +144,7 @@ Definition mirror_rec (t : tk) (r : record) : record := let '(x, u, sc) := r in 
 Definition mirror_row' (t : tk) (r : row) : row := {| rt := mirror_x t (rt r); rmult := rmult r; rvals := rvals r |}.
 Definition mirror_setup (s : setup) : setup :=
   {| s_tk := mirror_tk' (s_tk s); s_files := map (map (mirror_rec (s_tk s))) (s_files s);
-     s_tab := map (mirror_row' (s_tk s)) (s_tab s); s_period := s_period s; s_dtdx := s_dtdx s;
+     s_tab := map (mirror_row' (s_tk s)) (s_tab s); s_cont := s_cont s; s_period := s_period s; s_dtdx := s_dtdx s;
      s_lo := s_lo s; s_hi := s_hi s; s_life := s_life s; s_cfac := s_cfac s |}.
 
 (** * a concrete reversed set-up used by the non-vacuity examples: two forcing files, frames 1200 s apart on a
@@ -138,7 +155,16 @@ Definition ex_setup : setup :=
      s_files := [[rcq 0 1 10; rcq 1200 3 20]; [rcq 2400 7 30; rcq 3600 15 40]];
      s_tab := [ {| rt := 3600; rmult := 1; rvals := [0; 5120; 0] |}; {| rt := 2400; rmult := 2; rvals := [1; 6144; 1] |};
                 {| rt := 0; rmult := 1; rvals := [2; 7168; 0] |} ];
-     s_period := 2; s_dtdx := 1 # 16; s_lo := 1; s_hi := 18; s_life := 5; s_cfac := [1; 1 # 2]%Q |}.
+     s_cont := None; s_period := 2; s_dtdx := 1 # 16; s_lo := 1; s_hi := 18; s_life := 5; s_cfac := [1; 1 # 2]%Q |}.
+(** a concrete forward set-up with CONTINUOUS release every 1200 s on a 600 s clock: the file times 0 (one
+    row) and 2400 (two rows, one with multiplicity 2) lie on the frequency grid anchored at 0; the row at the
+    stop time is never used *)
+Definition ex_setup_cont : setup :=
+  {| s_tk := {| start := 0; stop := 3600; dt := 600; ref := 0; rev := false |};
+     s_files := [[rcq 0 1 10; rcq 1200 3 20]; [rcq 2400 7 30; rcq 3600 15 40]];
+     s_tab := [ {| rt := 0; rmult := 1; rvals := [0; 5120; 0] |}; {| rt := 2400; rmult := 2; rvals := [1; 6144; 1] |};
+                {| rt := 2400; rmult := 1; rvals := [2; 4096; 0] |}; {| rt := 3600; rmult := 1; rvals := [3; 7168; 0] |} ];
+     s_cont := Some 1200; s_period := 2; s_dtdx := 1 # 16; s_lo := 1; s_hi := 18; s_life := 5; s_cfac := [1; 1 # 2]%Q |}.
 (** records of a run in readable form: (step, [(pid, tag, x, age, temp)]) with reduced fractions *)
 Definition show_run (r : sim pv Z) : list (Z * list (Z * Z * Q * Z * Q)) :=
   map (fun x : rec pv => (rstep x, map (fun y : Z * Z * pv => let '(pid, tg, v) := y in
